@@ -37,6 +37,8 @@ M = [
     ("m43", "C05", "src/redis/executor/mod.rs", "                Command::Exec | Command::Discard | Command::Multi => {}", "                Command::Exec | Command::Discard | Command::Multi | Command::Ping(_) => {}", r"R05\.1:executor"),
     ("m44", "C05", "src/redis/executor/transaction_ops.rs", "commands.into_iter().map(|cmd| self.execute(&cmd)).collect();", "commands.into_iter().skip(1).map(|cmd| self.execute(&cmd)).collect();", r"R05\.3:executor"),
     ("m11", "C06", "src/replication/state/shard_state.rs", "            Some(local) => local.merge(&delta.value),", "            Some(_local) => delta.value,", r"R06\.3"),
+    ("m46", "C06", "src/production/replicated_state.rs", "                if self.config.enabled {\n                    match &self.gossip_backend {", "                if self.config.enabled && delta.value.expiry_ms.is_none() {\n                    match &self.gossip_backend {", r"R06\.7"),
+    ("m47", "C06", "src/production/replicated_state.rs", "                            handle.queue_deltas(vec![delta.clone()]);", "                            let _ = handle;", r"R06\.7"),
     ("m12", "C07", "src/replication/lattice.rs", "            positive: self.positive.merge(&other.positive),\n            negative: self.negative.merge(&other.negative),", "            positive: self.positive.merge(&other.positive),\n            negative: self.negative.merge(&other.positive),", r"R07\.1"),
     ("m13", "C07", "src/replication/lattice.rs", "        if other.timestamp > self.timestamp {\n            other.clone()", "        if other.timestamp >= self.timestamp {\n            other.clone()", r"R07\.5"),
     ("m14", "C08", "src/replication/lattice.rs", "        self.time = self.time.max(other.time) + 1;", "        self.time = other.time + 1;", r"R08\.1"),
@@ -44,6 +46,7 @@ M = [
     ("m16", "C09", "src/streaming/wal_actor.rs", "                            if let Some(tx) = ack_tx {\n                                self.pending_acks.push(tx);\n                            }", "                            if let Some(tx) = ack_tx {\n                                let _ = tx.send(Ok(()));\n                            }", r"R09\.1"),
     ("m17", "C09", "src/streaming/wal_store.rs", "        self.file\n            .sync_all()\n            .map_err(|e| WalError::FsyncFailed(e.to_string()))", "        use std::io::Write;\n        self.file\n            .flush()\n            .map_err(|e| WalError::FsyncFailed(e.to_string()))", r"R09\.3"),
     ("m18", "C09", "src/streaming/wal.rs", "                self.current_writer = None;\n                self.unsynced_lost = true;\n                Err(e)", "                self.current_writer = None;\n                Err(e)", r"R09\.2"),
+    ("m45", "C09", "src/production/replicated_state.rs", "                            if let Err(e) = wal.write_durable(std::sync::Arc::clone(&delta), timestamp).await {", "                            wal.write_fire_and_forget(std::sync::Arc::clone(&delta), timestamp);\n                            if let Err(e) = Ok::<(), String>(()) {", r"R09\.7"),
     ("m19", "C10", "src/streaming/wal.rs", "        if actual_checksum != checksum {\n            return None; // Corrupted entry\n        }\n", "        let _ = (actual_checksum, checksum);\n", r"R10\.1"),
     ("m20", "C10", "src/streaming/wal.rs", "            if current_name.as_deref() == Some(name.as_str()) {\n                continue;\n            }\n", "", r"R10\.4"),
     ("m21", "C10", "src/streaming/wal.rs", "            let reader = match self.store.open_read(&name) {\n                Ok(r) => r,\n                Err(_) => continue, // Skip unreadable files\n            };", "            let reader = self.store.open_read(&name)?;", r"R10\.3"),
